@@ -65,6 +65,7 @@ inductive CollisionKey
   | name
   deriving DecidableEq, Repr
 def collisionKey : CollisionKey := .alias
+def collisionExempt : List String := ["_", "."]
 inductive CacheForm
   | raw
   | crlfToLf
